@@ -764,6 +764,12 @@ func (self *ReplicationClient) recvFiles() error {
 		}
 
 		currentAofIndex := self.aofLock.AofIndex
+		if self.aofLock.AofFlag&AOF_FLAG_REWRITED != 0 {
+			// a record of the leader's rewrite.aof keeps the index of the append file it once came
+			// from: store it in rewrite.aof here too, not in a stray append file of that old index
+			// (which leaves the directory with non-contiguous append files: FindAofFiles fails)
+			currentAofIndex = 0
+		}
 		if currentAofIndex != aofIndex || aofFile == nil {
 			if aofFile != nil {
 				err = aofFile.Flush()
